@@ -274,6 +274,64 @@ fn check_max(c: &Vec<Res>) -> CheckResult {
     Ok(out)
 }
 
+/// exhaustive stage: small supplies x offsets x workloads x limit modes
+fn exhaustive(tier: Tier, _seed: u64) -> ExtraResult {
+    let mut r = ExtraResult { exhaustive: true, replay_subcheck: "search", ..Default::default() };
+    let pmax = tier.pick(4u64, 6u64);
+    let mut supplies = vec![SupplySpec::Dedicated];
+    for p in 1..=pmax {
+        for q in 1..=p {
+            supplies.push(SupplySpec::Periodic { q, p });
+            for dl in q..=p {
+                supplies.push(SupplySpec::Constrained { q, d: dl, p });
+            }
+        }
+    }
+    supplies.push(SupplySpec::UserSteps { incr: vec![0, 0, 1], cycle: vec![1, 0] });
+    supplies.push(SupplySpec::UserSteps { incr: vec![], cycle: vec![0, 0, 0, 1] });
+    let workloads: Vec<Vec<(u64, u64)>> = vec![vec![], vec![(2, 1)], vec![(3, 2), (5, 1)], vec![(2, 1), (4, 1), (6, 1), (8, 1)]];
+    let limits = vec![
+        LimitMode::AtFixedPoint,
+        LimitMode::Below(1),
+        LimitMode::Above(1),
+        LimitMode::Absolute(1),
+        LimitMode::Absolute(2),
+        LimitMode::Absolute(3),
+        LimitMode::Absolute(5),
+        LimitMode::Absolute(9),
+    ];
+    for supply in &supplies {
+        for offset in 0..=6u64 {
+            for base_extra in 0..=2u64 {
+                for steps in &workloads {
+                    for limit in &limits {
+                        for use_search in [false, true] {
+                            if use_search && offset > 0 {
+                                continue;
+                            }
+                            let c = SearchCase { supply: supply.clone(), offset, base_extra, zero_demand: false, steps: steps.clone(), limit: limit.clone(), use_search };
+                            r.evaluations += 1;
+                            match check_search(&c) {
+                                Ok(o) => {
+                                    if o.nontrivial {
+                                        r.nontrivial += 1;
+                                    }
+                                }
+                                Err(msg) => {
+                                    r.failure = Some((serde_json::to_value(&c).unwrap(), msg));
+                                    return r;
+                                }
+                            }
+                        }
+                    }
+                }
+            }
+        }
+    }
+    r.note = format!("every reservation with P <= {}, dedicated and two user supplies x offsets 0..6 x base demands x 4 step workloads x 8 limit modes x search / search_with_offset", pmax);
+    r
+}
+
 // --- slow convergence --------------------------------------------------------------
 
 /// w(r) = min(r + 1, n): the iteration creeps towards its fixed point one tick at a time
@@ -369,6 +427,6 @@ pub fn def() -> PropertyDef {
             subcheck("max_response_time", (5000, 100_000), max_strategy, check_max),
             subcheck("slow-convergence", (12, 200), slow_strategy, check_slow),
         ],
-        extra: None,
+        extra: Some(Box::new(exhaustive)),
     }
 }
